@@ -73,3 +73,15 @@ package transaction
 //@   modifies reg.accounts.index[*], reg.commodities.index[*]
 //@   ensures result.1 == nil ==> (forall j int :: {result.0[j]} 0 <= j && j < len(result.0) ==> okPostings(result.0[j]))
 //@   loop 1 invariant fresh(targets)
+//
+// Compare: date, description, then the postings pairwise, then the number of postings; two
+// transactions tie only if they agree in all of these (so equal-comparing transactions print alike).
+//@ def cmpReady(t *Transaction) bool := t != nil && (forall i int :: {t.Postings[i]} 0 <= i && i < len(t.Postings) ==> okPosting(t.Postings[i]))
+//@ func Compare
+//@   requires cmpReady(t) && cmpReady(t2)
+//@   ensures [C06] [C05] 0 - 1 <= result && result <= 1
+//@   ensures [C06] [C05] @tie: result == 0 <==> (t.Date == t2.Date && t.Description == t2.Description && len(t.Postings) == len(t2.Postings)
+//@        && (forall k int :: {t.Postings[k]} 0 <= k && k < len(t.Postings) ==> postCmp(t.Postings[k], t2.Postings[k]) == 0))
+//@   loop 1 invariant 0 <= i && i <= len(t.Postings) && i <= len(t2.Postings)
+//@   loop 1 invariant forall k int :: {t.Postings[k]} 0 <= k && k < i ==> postCmp(t.Postings[k], t2.Postings[k]) == 0
+//@   loop 1 decreases len(t.Postings) - i
